@@ -228,7 +228,7 @@ func runScript(route int, steps []*D) (o outcome) {
 	bc := newBuildCtx()
 	switch route {
 	case 0:
-		o.out = string(redact.Sprint(tSafeFmt{steps, bc}))
+		o.out = string(redact.Sprint(tSafeFmt{steps, func() *buildCtx { return bc }}))
 	case 1:
 		o.out = string(redact.Sprintfn(func(p redact.SafePrinter) {
 			for _, st := range steps {
